@@ -59,6 +59,10 @@ CORPUS: Dict[str, str] = {
     "shadow_builtins": IMPORTS + "def abs(v):\n    return v\ndef len(v):\n    return 3\ndef max(p, q):\n    return p\ndef min(p, q):\n    return q\ndef int(v):\n    return v\na = analog_read(\"A0\")\nmon.write(abs(a) + len(a) + max(a, 1) + min(a, 2) + int(a))\n",
     "range_limits": IMPORTS + "a = analog_read(\"A0\")\nitems = [a, 2]\nn = a\nfor i in range(abs(a - 5)):\n    mon.write(i)\nfor j in range(len(items)):\n    items.append(j)\nfor k in range(min(a, 3)):\n    k += 1\n    mon.write(k)\nfor m in range(n):\n    n = n - 1\nwhile True:\n    for step in range(max(a, 2)):\n        step = step * 2\n        mon.write(step)\n",
     "list_returns": IMPORTS + "def ramp(fine):\n    if fine > 2:\n        return [0.25, 0.5, 0.75]\n    return [1, 2, 3]\ndef names(k):\n    if k > 1:\n        return [1, 2]\n    if k > 0:\n        return [1.5]\n    return [True]\nr = ramp(1)\nmon.write(r[0])\nq = names(2)\nmon.write(q[0])\n",
+    # a script that is REJECTED while a helper variant is being generated, and a valid one with the same helper name / types
+    "rejected_mid_variant": IMPORTS + "def show(v):\n    mon.write(scale(v))\ndef scale(x, gain=0.5):\n    return x * gain\nshow(3)\n",
+    "rejected_in_helper": IMPORTS + "def show(v):\n    return scale(v) + 1\ndef scale(x):\n    y = x / 2\n    lambda_ = lambda q: q\n    return y\nmon.write(show(3))\n",
+    "forward_scale": IMPORTS + "def show(v):\n    t = scale(v)\n    mon.write(t)\n    return t\ndef scale(x):\n    return x / 2 + 0.25\nshow(3)\nmon.write(show(5) * 2)\n",
     "case_names": IMPORTS + "a = analog_read(\"A0\")\nif a > 3:\n    t = 1\n    T = 2\n    Kp = 3\n    kp = 4\n    KP = 5\nelse:\n    KP = 0\n    kp = 1\n    Kp = 2\n    T = 3\n    t = 4\nfor i in range(2):\n    x = i\n    X = i + 1\nmon.write(t + T + Kp + kp + KP + x + X)\n",
     "mixed_returns": IMPORTS + "def pick(v):\n    if v > 3:\n        return 1\n    if v > 2:\n        return 2.5\n    if v > 1:\n        return True\n    return 0\ndef lab(v):\n    if v:\n        return \"a\"\n    return \"b\"\nmon.write(pick(2))\nmon.write(lab(1))\n",
     "helper_globals": IMPORTS + "def seta():\n    global ga, gb, gc\n    ga = 1\n    gb = 2.5\n    gc = \"s\"\ndef setb():\n    global gd, ga\n    gd = 4\n    ga = 5\nseta()\nsetb()\nzz, yy = 1, 2\nzz, xx = 3, 4\nwhile True:\n    mon.write(ga)\n    gd = gd + 1\n",
@@ -232,7 +236,10 @@ def explore_orders(report: Report, tier: str) -> dict:
 
     for name, src in CORPUS.items():
         base, points = run_with(parser_mod, emitter_mod, src, {})
-        real = emit(parse(src))
+        try:
+            real = emit(parse(src))
+        except Exception as exc:  # noqa: BLE001 - a rejected corpus script: the rejection is the output
+            real = f"<<{type(exc).__name__}: {exc}>>"
         if base != real:
             report.harness_errors.append(f"rewritten modules disagree with the real transpiler on corpus script {name!r}")
             continue
@@ -383,6 +390,8 @@ def explore_histories(report: Report, tier: str) -> dict:
     # emit() twice / thrice on the same Program; interleaved parse/emit
     for a in names:
         n += 1
+        if fresh[a].startswith("<<"):
+            continue  # rejected scripts have no Program to emit twice
         prog = parse(CORPUS[a])
         first = emit(prog)
         second = emit(prog)
@@ -391,6 +400,8 @@ def explore_histories(report: Report, tier: str) -> dict:
             bad("emit-repeat", [a], "emit() of the same Program is not idempotent / differs from the fresh output")
         for b in names[:6]:
             n += 1
+            if fresh[b].startswith("<<"):
+                continue
             pa = parse(CORPUS[a])
             pb = parse(CORPUS[b])
             ea, eb = emit(pa), emit(pb)
